@@ -42,9 +42,21 @@ def lit(c):
         a, p = lit(c[1])
         return a, (not p)
     if c[0] == ">":
-        return ("<", c[2], c[1]), True
+        return lit(("<", c[2], c[1]))
     if c[0] == ">=":
-        return ("<=", c[2], c[1]), True
+        return lit(("<=", c[2], c[1]))
+    if c[0] in ("<", "<=") and len(c) == 3:
+        # integer comparisons: x + 1 <= y  is  x < y;  x < y + 1  is  x <= y;  x <= y - 1  is  x < y;  x - 1 < y  is  x <= y
+        one = ("c", "int", 1)
+        a, b = c[1], c[2]
+        if c[0] == "<=" and isinstance(a, tuple) and a[0] == "+" and a[2] == one:
+            return ("<", a[1], b), True
+        if c[0] == "<" and isinstance(b, tuple) and b[0] == "+" and b[2] == one:
+            return ("<=", a, b[1]), True
+        if c[0] == "<=" and isinstance(b, tuple) and b[0] == "-" and b[2] == one:
+            return ("<", a, b[1]), True
+        if c[0] == "<" and isinstance(a, tuple) and a[0] == "-" and a[2] == one:
+            return ("<=", a[1], b), True
     if c[0] == "!=":
         a, b = sorted([c[1], c[2]], key=repr)
         return ("==", a, b), False
